@@ -1,7 +1,7 @@
 (* The positional join engine (Rep/RelJoin.v, transcribed from rel/value_set_relpos.go and
    rel/value_set_rel.go) refines the specification join of the reference semantics (property C04). *)
 From Arrai Require Import Base.Val Spec.SetAlg Eval.Interp Proofs.ValOrder Proofs.SetAlgP Proofs.KeyedP Proofs.CanonP
-  Proofs.RelP Rep.RelJoin.
+  Proofs.RelP Proofs.PermP Proofs.PatternP Rep.RelJoin.
 Local Open Scope nat_scope.
 
 (* ---------- rows and sets of rows ---------- *)
@@ -593,3 +593,689 @@ Proof.
              | intros (t & u & (Ht & Hu & Hk) & ->); exists t, u; repeat split; try assumption; apply app_nil_r]).
   - destruct (negb (Bool.eqb (hasCommonIndices lo lk) (hasCommonIndices ro rk))); cbn; exact KE.
 Qed.
+
+(* ---------- names and tuples ---------- *)
+
+Lemma name_eqb_iff a b : name_eqb a b = true <-> a = b.
+Proof. split; [apply name_eqb_eq | intros ->; apply name_eqb_refl]. Qed.
+
+Lemma name_in_iff n l : name_in n l = true <-> In n l.
+Proof.
+  unfold name_in. rewrite existsb_exists. split.
+  - intros (x & Hx & E). apply name_eqb_eq in E. subst; assumption.
+  - intros H. exists n. split; [assumption | apply name_eqb_refl].
+Qed.
+
+Lemma name_in_false n l : name_in n l = false <-> ~ In n l.
+Proof. rewrite <- name_in_iff. destruct (name_in n l); split; congruence. Qed.
+
+Lemma name_in_filter n f l : name_in n (filter f l) = name_in n l && f n.
+Proof.
+  destruct (name_in n (filter f l)) eqn:E.
+  - apply name_in_iff, filter_In in E as [H1 H2]. apply name_in_iff in H1. rewrite H1, H2. reflexivity.
+  - symmetry. apply andb_false_iff. destruct (name_in n l) eqn:E1; [|left; reflexivity]. right.
+    destruct (f n) eqn:E2; [|reflexivity]. apply name_in_iff in E1.
+    assert (X : name_in n (filter f l) = true) by (apply name_in_iff, filter_In; split; assumption). congruence.
+Qed.
+
+Lemma name_in_app n a b : name_in n (a ++ b) = name_in n a || name_in n b.
+Proof. unfold name_in. apply existsb_app. Qed.
+
+Lemma tget_cons n m v l : tget n ((m, v) :: l) = if name_eqb n m then Some v else tget n l.
+Proof. simpl. unfold name_eqb. destruct (name_cmp n m); reflexivity. Qed.
+
+Lemma name_cmp_refl a : name_cmp a a = Eq.
+Proof. destruct (name_cmp_ordR a a a) as (H & _). exact H. Qed.
+
+Lemma tget_ainsert n k v l : tget n (ainsert (k, v) l) = if name_eqb n k then Some v else tget n l.
+Proof.
+  induction l as [|[m w] l IH].
+  - simpl ainsert. rewrite tget_cons. reflexivity.
+  - cbn [ainsert fst]. destruct (name_cmp k m) eqn:E.
+    + apply name_cmp_eq in E. subst m. rewrite !tget_cons. destruct (name_eqb n k); reflexivity.
+    + rewrite tget_cons. reflexivity.
+    + rewrite !tget_cons, IH. destruct (name_eqb n m) eqn:E1; [|reflexivity].
+      destruct (name_eqb n k) eqn:E2; [|reflexivity].
+      apply name_eqb_eq in E1, E2. subst. rewrite name_cmp_refl in E. discriminate.
+Qed.
+
+Lemma tget_asort n l : tget n (asort l) = tget n l.
+Proof.
+  induction l as [|[k v] l IH]; [reflexivity|].
+  cbn [asort fold_right]. fold (asort l). rewrite tget_ainsert, tget_cons, IH. reflexivity.
+Qed.
+
+Lemma tget_app n a b : tget n (a ++ b) = match tget n a with Some v => Some v | None => tget n b end.
+Proof.
+  induction a as [|[k v] a IH]; [reflexivity|].
+  rewrite <- app_comm_cons, !tget_cons. destruct (name_eqb n k); [reflexivity | exact IH].
+Qed.
+
+Lemma tget_none n l : tget n l = None <-> ~ In n (map fst l).
+Proof.
+  induction l as [|[k v] l IH]; [simpl; intuition|].
+  rewrite tget_cons. cbn [map fst In]. destruct (name_eqb n k) eqn:E.
+  - apply name_eqb_eq in E. subst. split; [discriminate | intros H; exfalso; apply H; left; reflexivity].
+  - rewrite IH. split; [intros H [H1|H1]; [subst; rewrite name_eqb_refl in E; discriminate | contradiction] | intros H H1; apply H; right; assumption].
+Qed.
+
+Lemma tget_in_iff n v l : NoDup (map fst l) -> (tget n l = Some v <-> In (n, v) l).
+Proof.
+  induction l as [|[k w] l IH]; intros Hnd; [simpl; split; [discriminate | intros []]|].
+  cbn [map fst] in Hnd. inversion Hnd as [|? ? Hk Hl]; subst.
+  rewrite tget_cons. destruct (name_eqb n k) eqn:E.
+  - apply name_eqb_eq in E. subst k. split.
+    + intros H; injection H as ->. left; reflexivity.
+    + intros [H|H]; [injection H as ->; reflexivity|]. exfalso. apply Hk. apply (in_map fst) in H. exact H.
+  - rewrite (IH Hl). split; [intros H; right; assumption|].
+    intros [H|H]; [injection H as -> ->; rewrite name_eqb_refl in E; discriminate | assumption].
+Qed.
+
+Lemma tget_rev n l : NoDup (map fst l) -> tget n (rev l) = tget n l.
+Proof.
+  intros Hnd.
+  assert (Hnd' : NoDup (map fst (rev l))) by (rewrite map_rev; apply NoDup_rev, Hnd).
+  destruct (tget n l) as [v|] eqn:E.
+  - apply (tget_in_iff _ _ _ Hnd'). apply in_rev. rewrite rev_involutive. apply (tget_in_iff _ _ _ Hnd), E.
+  - apply tget_none. rewrite map_rev, <- in_rev. apply tget_none, E.
+Qed.
+
+Lemma tget_filter n (f : name -> bool) l : tget n (filter (fun p => f (fst p)) l) = if f n then tget n l else None.
+Proof.
+  induction l as [|[k v] l IH]; [simpl; destruct (f n); reflexivity|].
+  cbn [filter fst]. destruct (f k) eqn:Ek.
+  - rewrite !tget_cons, IH. destruct (name_eqb n k) eqn:E; [|reflexivity].
+    apply name_eqb_eq in E. subst. rewrite Ek. reflexivity.
+  - rewrite IH, tget_cons. destruct (name_eqb n k) eqn:E; [|reflexivity].
+    apply name_eqb_eq in E. subst. rewrite Ek. reflexivity.
+Qed.
+
+Lemma asorted_nodup l : asorted l -> NoDup (map fst l).
+Proof.
+  induction l as [|[k v] l IH]; intros H; [constructor|].
+  destruct H as [Hk Hl]. cbn [map fst]. constructor; [|apply IH, Hl].
+  intros Hin. apply in_map_iff in Hin as (q & Eq & Hq). specialize (Hk q Hq). cbn [fst] in Hk.
+  rewrite Eq, name_cmp_refl in Hk. discriminate.
+Qed.
+
+Lemma asorted_lt_none k l : (forall q, In q l -> name_cmp k (fst q) = Lt) -> tget k l = None.
+Proof.
+  intros H. apply tget_none. intros Hin. apply in_map_iff in Hin as (q & Eq & Hq).
+  specialize (H q Hq). rewrite Eq, name_cmp_refl in H. discriminate.
+Qed.
+
+(* two name-sorted tuples with the same attribute lookup are the same tuple *)
+Lemma asorted_ext l : forall m, asorted l -> asorted m -> (forall n, tget n l = tget n m) -> l = m.
+Proof.
+  induction l as [|[k v] l IH]; intros [|[k' v'] m] Hl Hm H.
+  - reflexivity.
+  - specialize (H k'). rewrite tget_cons, name_eqb_refl in H. discriminate.
+  - specialize (H k). rewrite tget_cons, name_eqb_refl in H. discriminate.
+  - destruct Hl as [Hk Hl]. destruct Hm as [Hk' Hm].
+    assert (Ek : k = k').
+    { pose proof (H k) as H1. pose proof (H k') as H2. rewrite !tget_cons, !name_eqb_refl in *.
+      destruct (name_eqb k k') eqn:E; [apply name_eqb_eq, E|]. exfalso.
+      assert (E' : name_eqb k' k = false).
+      { destruct (name_eqb k' k) eqn:E'; [|reflexivity]. apply name_eqb_eq in E'. subst. rewrite name_eqb_refl in E. discriminate. }
+      rewrite E' in H2. symmetry in H1.
+      assert (L1 : name_cmp k' k = Lt).
+      { assert (Hin : In k (map fst m)) by (destruct (in_dec (list_eq_dec Z.eq_dec) k (map fst m)) as [i|ni]; [exact i | apply tget_none in ni; congruence]).
+        apply in_map_iff in Hin as (q & <- & Hq). apply Hk', Hq. }
+      assert (L2 : name_cmp k k' = Lt).
+      { assert (Hin : In k' (map fst l)) by (destruct (in_dec (list_eq_dec Z.eq_dec) k' (map fst l)) as [i|ni]; [exact i | apply tget_none in ni; congruence]).
+        apply in_map_iff in Hin as (q & <- & Hq). apply Hk, Hq. }
+      pose proof (name_cmp_trans _ _ _ L1 L2) as L. rewrite name_cmp_refl in L. discriminate. }
+    subst k'. pose proof (H k) as Hv. rewrite !tget_cons, name_eqb_refl in Hv. injection Hv as ->.
+    f_equal. apply IH; [assumption | assumption|].
+    intros n. specialize (H n). rewrite !tget_cons in H. destruct (name_eqb n k) eqn:E; [|exact H].
+    apply name_eqb_eq in E. subst n. rewrite (asorted_lt_none k l Hk), (asorted_lt_none k m Hk'). reflexivity.
+Qed.
+
+Lemma fold_ainsert_sorted l : forall acc, asorted acc -> asorted (fold_left (fun acc p => ainsert p acc) l acc).
+Proof. induction l as [|x l IH]; intros acc H; simpl; [exact H | apply IH, ainsert_sorted, H]. Qed.
+
+Lemma tget_fold_ainsert n l : forall acc,
+  tget n (fold_left (fun acc p => ainsert p acc) l acc) = match tget n (rev l) with Some v => Some v | None => tget n acc end.
+Proof.
+  induction l as [|[k v] l IH]; intros acc; [reflexivity|].
+  cbn [fold_left rev]. rewrite IH, tget_app, tget_ainsert, tget_cons.
+  destruct (tget n (rev l)); [reflexivity|]. destruct (name_eqb n k); reflexivity.
+Qed.
+
+Lemma filter_asorted' (f : name * val -> bool) l : asorted l -> asorted (filter f l).
+Proof.
+  induction l as [|p l IH]; simpl; [trivial|]. intros [Hp Hl]. destruct (f p); simpl.
+  - split; [|apply IH, Hl]. intros q Hq. apply filter_In in Hq. apply Hp, Hq.
+  - apply IH, Hl.
+Qed.
+
+(* ---------- headings ---------- *)
+
+Fixpoint ninsert (x : name) (l : list name) : list name :=
+  match l with
+  | [] => [x]
+  | y :: l' => match name_cmp x y with Lt => x :: l | Eq => x :: l' | Gt => y :: ninsert x l' end
+  end.
+Definition nsort (l : list name) : list name := fold_right ninsert [] l.
+
+Lemma map_fst_ainsert x l : map fst (ainsert x l) = ninsert (fst x) (map fst l).
+Proof.
+  induction l as [|y l IH]; [reflexivity|]. cbn [ainsert map ninsert].
+  destruct (name_cmp (fst x) (fst y)); cbn [map]; [reflexivity | reflexivity | rewrite IH; reflexivity].
+Qed.
+
+Lemma map_fst_asort l : map fst (asort l) = nsort (map fst l).
+Proof.
+  induction l as [|x l IH]; [reflexivity|].
+  cbn [asort fold_right map nsort]. fold (asort l). rewrite map_fst_ainsert, IH. reflexivity.
+Qed.
+
+Lemma map_fst_combine {A B} (a : list A) : forall (b : list B), length a = length b -> map fst (combine a b) = a.
+Proof.
+  induction a as [|x a IH]; intros [|y b] H; try reflexivity; try discriminate.
+  cbn [combine map fst]. f_equal. apply IH. simpl in H. lia.
+Qed.
+
+Lemma ninsert_in x k l : In x (ninsert k l) <-> x = k \/ In x l.
+Proof.
+  induction l as [|y l IH]; [simpl; intuition|]. cbn [ninsert].
+  destruct (name_cmp k y) eqn:E.
+  - apply name_cmp_eq in E. subst y. simpl. intuition.
+  - simpl. intuition.
+  - cbn [In]. rewrite IH. intuition.
+Qed.
+
+Lemma nsort_in x l : In x (nsort l) <-> In x l.
+Proof.
+  induction l as [|y l IH]; [reflexivity|]. cbn [nsort fold_right]. fold (nsort l).
+  rewrite ninsert_in, IH. simpl. intuition.
+Qed.
+
+(* ---------- the representation invariant ---------- *)
+
+Definition wf_rel (r : relation) : Prop :=
+  let n := length (r_attrs r) in
+  NoDup (r_attrs r) /\ length (r_p r) = n /\ NoDup (r_p r) /\ inrange (r_p r) n
+  /\ width_is (r_rows r) n /\ NoDup (r_rows r) /\ r_rows r <> [].
+
+Lemma nodupb_spec {A} (eqb : A -> A -> bool) (l : list A) :
+  (forall a b, eqb a b = true <-> a = b) -> (nodupb eqb l = true <-> NoDup l).
+Proof.
+  intros Heq. induction l as [|x l IH]; [split; [constructor | reflexivity]|].
+  cbn [nodupb]. rewrite andb_true_iff, IH, negb_true_iff. split.
+  - intros [H1 H2]. constructor; [|assumption]. intros Hin.
+    assert (X : existsb (eqb x) l = true) by (apply existsb_exists; exists x; split; [assumption | apply Heq; reflexivity]). congruence.
+  - intros H. inversion H as [|? ? Hx Hl]; subst. split; [|assumption].
+    destruct (existsb (eqb x) l) eqn:E; [|reflexivity]. apply existsb_exists in E as (y & Hy & E). apply Heq in E. subst; contradiction.
+Qed.
+
+Lemma wf_relb_spec r : wf_relb r = true <-> wf_rel r.
+Proof.
+  unfold wf_relb, wf_rel. rewrite !andb_true_iff, negb_true_iff.
+  rewrite (nodupb_spec name_eqb _ name_eqb_iff), (nodupb_spec Nat.eqb _ Nat.eqb_eq), (nodupb_spec row_eqb _ row_eqb_eq).
+  rewrite Nat.eqb_eq, !forallb_forall, Nat.eqb_neq.
+  split.
+  - intros ((((((H1 & H2) & H3) & H4) & H5) & H6) & H7). repeat split; try assumption.
+    + intros i Hi. apply Nat.ltb_lt, H4, Hi.
+    + intros v Hv. apply Nat.eqb_eq, H5, Hv.
+    + intros E. rewrite E in H7. apply H7; reflexivity.
+  - intros (H1 & H2 & H3 & H4 & H5 & H6 & H7). repeat split; try assumption.
+    + intros i Hi. apply Nat.ltb_lt, H4, Hi.
+    + intros v Hv. apply Nat.eqb_eq, H5, Hv.
+    + destruct (r_rows r); [congruence | simpl; discriminate].
+Qed.
+
+Lemma row_tuple_names attrs p v : length p = length attrs ->
+  exists t, row_tuple attrs p v = VTup t /\ map fst t = nsort attrs /\ asorted t
+            /\ forall n, tget n t = tget n (combine attrs (pick p v)).
+Proof.
+  intros Hl. unfold row_tuple, mktup. eexists. split; [reflexivity|]. split; [|split].
+  - rewrite map_fst_asort, map_fst_combine; [reflexivity | rewrite pick_length; congruence].
+  - apply asort_sorted.
+  - intros n. apply tget_asort.
+Qed.
+
+Lemma abs_in r m : In m (abs r) <-> exists v, In v (r_rows r) /\ m = row_tuple (r_attrs r) (r_p r) v.
+Proof.
+  unfold abs. rewrite vsort_in, in_map_iff. split; intros (v & H1 & H2); exists v; [split; [assumption | congruence] | split; [congruence | assumption]].
+Qed.
+
+Lemma abs_nonempty r : r_rows r <> [] -> abs r <> [].
+Proof.
+  intros H E. destruct (r_rows r) as [|v rows] eqn:Er; [congruence|].
+  assert (Hin : In (row_tuple (r_attrs r) (r_p r) v) (abs r)) by (apply abs_in; exists v; rewrite Er; split; [left; reflexivity | reflexivity]).
+  rewrite E in Hin. destruct Hin.
+Qed.
+
+Lemma abs_heading r : wf_rel r -> heading (abs r) = Some (nsort (r_attrs r)).
+Proof.
+  intros (_ & Hlen & _ & _ & _ & _ & Hne). apply heading_spec. split; [apply abs_nonempty, Hne|].
+  intros m Hm. apply abs_in in Hm as (v & _ & ->).
+  destruct (row_tuple_names (r_attrs r) (r_p r) v Hlen) as (t & E & Hn & _). exists t. split; assumption.
+Qed.
+
+(* ---------- names to columns ---------- *)
+
+(* attribute nm of relation r is stored in column c *)
+Definition col (r : relation) (nm : name) (c : nat) : Prop :=
+  exists i, nth_error (r_attrs r) i = Some nm /\ nth_error (r_p r) i = Some c.
+
+Lemma find_last_name_spec x l : forall i0 acc,
+  match find_last_name x l i0 acc with
+  | Some j => acc = Some j \/ (i0 <= j /\ nth_error l (j - i0) = Some x)
+  | None => acc = None /\ ~ In x l
+  end.
+Proof.
+  induction l as [|y l IH]; intros i0 acc; simpl.
+  - destruct acc; [left; reflexivity | split; [reflexivity | intros []]].
+  - specialize (IH (S i0) (if name_eqb x y then Some i0 else acc)).
+    destruct (find_last_name x l (S i0) (if name_eqb x y then Some i0 else acc)) as [j|].
+    + destruct IH as [IH|[Hle Hn]].
+      * destruct (name_eqb x y) eqn:E; [|left; exact IH].
+        apply name_eqb_eq in E. subst y. injection IH as <-. right. split; [lia|]. rewrite Nat.sub_diag. reflexivity.
+      * right. split; [lia|]. replace (j - i0) with (S (j - S i0)) by lia. exact Hn.
+    + destruct IH as [IH Hn]. destruct (name_eqb x y) eqn:E; [discriminate|]. split; [exact IH|].
+      intros [->|H]; [rewrite name_eqb_refl in E; discriminate | contradiction].
+Qed.
+
+Section Cols.
+  Variable r : relation.
+  Hypothesis Hwf : wf_rel r.
+
+  Lemma col_fun nm c c' : col r nm c -> col r nm c' -> c = c'.
+  Proof.
+    destruct Hwf as (Hnd & _). intros (i & H1 & H2) (i' & H1' & H2').
+    assert (i = i').
+    { apply (NoDup_nth_error (r_attrs r)); [exact Hnd | apply nth_error_Some; congruence | congruence]. }
+    subst. congruence.
+  Qed.
+
+  Lemma col_inj nm nm' c : col r nm c -> col r nm' c -> nm = nm'.
+  Proof.
+    destruct Hwf as (_ & _ & Hnd & _). intros (i & H1 & H2) (i' & H1' & H2').
+    assert (i = i').
+    { apply (NoDup_nth_error (r_p r)); [exact Hnd | apply nth_error_Some; congruence | congruence]. }
+    subst. congruence.
+  Qed.
+
+  Lemma col_range nm c : col r nm c -> c < length (r_attrs r).
+  Proof.
+    destruct Hwf as (_ & _ & _ & Hr & _). intros (i & _ & H2). apply Hr. eapply nth_error_In, H2.
+  Qed.
+
+  Lemma col_attr nm c : col r nm c -> In nm (r_attrs r).
+  Proof. intros (i & H1 & _). eapply nth_error_In, H1. Qed.
+
+  Lemma col_exists nm : In nm (r_attrs r) -> exists c, col r nm c.
+  Proof.
+    destruct Hwf as (_ & Hlen & _). intros H. apply In_nth_error in H as (i & Hi).
+    assert (Hlt : i < length (r_p r)) by (rewrite Hlen; apply nth_error_Some; congruence).
+    apply nth_error_Some in Hlt. destruct (nth_error (r_p r) i) as [c|] eqn:E; [|congruence].
+    exists c, i. split; assumption.
+  Qed.
+
+  Lemma tget_combine_nth (attrs : list name) : forall i nm (vals : row),
+    NoDup attrs -> nth_error attrs i = Some nm -> length vals = length attrs ->
+    tget nm (combine attrs vals) = nth_error vals i.
+  Proof.
+    induction attrs as [|a attrs IH]; intros i nm vals Hnd Hi Hl; [destruct i; discriminate|].
+    destruct vals as [|x vals]; [discriminate|]. cbn [combine]. rewrite tget_cons.
+    inversion Hnd as [|? ? Ha Hnd']; subst. destruct i as [|i].
+    - injection Hi as ->. rewrite name_eqb_refl. reflexivity.
+    - cbn [nth_error] in *. destruct (name_eqb nm a) eqn:E.
+      + apply name_eqb_eq in E. subst a. exfalso. apply Ha. eapply nth_error_In, Hi.
+      + apply IH; [assumption | assumption | simpl in Hl; lia].
+  Qed.
+
+  (* the cell a row tuple holds under nm is the content of nm's column *)
+  Lemma col_tget nm c (v : row) : col r nm c -> tget nm (combine (r_attrs r) (pick (r_p r) v)) = Some (nth c v cell0).
+  Proof.
+    destruct Hwf as (Hnd & Hlen & _). intros (i & H1 & H2).
+    rewrite (tget_combine_nth _ i nm _ Hnd H1) by (rewrite pick_length; exact Hlen).
+    unfold pick. exact (map_nth_error (fun i => nth i v cell0) i (r_p r) H2).
+  Qed.
+
+  Lemma nocol_tget nm (v : row) : ~ In nm (r_attrs r) -> tget nm (combine (r_attrs r) (pick (r_p r) v)) = None.
+  Proof.
+    destruct Hwf as (_ & Hlen & _). intros H. apply tget_none.
+    rewrite map_fst_combine by (rewrite pick_length; congruence). exact H.
+  Qed.
+
+  Lemma getIndices_spec names : incl names (r_attrs r) ->
+    exists idx, getIndices (r_attrs r) names = Some idx /\ Forall2 (col r) names (compose (r_p r) idx).
+  Proof.
+    destruct Hwf as (_ & Hlen & _).
+    induction names as [|nm names IH]; intros Hin.
+    - exists []. split; [reflexivity | constructor].
+    - destruct IH as (idx & E & F); [intros x Hx; apply Hin; right; assumption|].
+      unfold getIndices in *. cbn [mapM_opt]. rewrite E.
+      pose proof (find_last_name_spec nm (r_attrs r) 0 None) as S.
+      destruct (find_last_name nm (r_attrs r) 0 None) as [j|].
+      + destruct S as [S|[_ S]]; [discriminate|]. rewrite Nat.sub_0_r in S.
+        exists (j :: idx). split; [reflexivity|]. cbn [compose map]. constructor; [|exact F].
+        exists j. split; [exact S|].
+        assert (Hlt : j < length (r_p r)) by (rewrite Hlen; apply nth_error_Some; congruence).
+        apply nth_error_nth'. exact Hlt.
+      + destruct S as [_ S]. exfalso. apply S, Hin. left; reflexivity.
+  Qed.
+
+  Lemma F2_in names L c : Forall2 (col r) names L -> (In c L <-> exists nm, In nm names /\ col r nm c).
+  Proof.
+    intros F. induction F as [|nm c0 names L H F IH].
+    - split; [intros [] | intros (nm & [] & _)].
+    - cbn [In]. rewrite IH. split.
+      + intros [<-|(nm' & H1 & H2)]; [exists nm; split; [left; reflexivity | exact H] | exists nm'; split; [right; assumption | assumption]].
+      + intros (nm' & [<-|H1] & H2); [left; eapply col_fun; eassumption | right; exists nm'; split; assumption].
+  Qed.
+
+  Lemma F2_col_of names L nm : Forall2 (col r) names L -> In nm names -> exists c, In c L /\ col r nm c.
+  Proof.
+    intros F. induction F as [|nm0 c0 names L H F IH]; [intros []|].
+    intros [<-|Hin]; [exists c0; split; [left; reflexivity | exact H]|].
+    destruct (IH Hin) as (c & H1 & H2). exists c. split; [right; assumption | assumption].
+  Qed.
+
+  Lemma F2_inrange names L : Forall2 (col r) names L -> inrange L (length (r_attrs r)).
+  Proof. intros F c Hc. apply (F2_in _ _ _ F) in Hc as (nm & _ & Hc). eapply col_range, Hc. Qed.
+
+  Lemma F2_isSub n1 L1 n2 L2 : Forall2 (col r) n1 L1 -> Forall2 (col r) n2 L2 -> incl n1 (r_attrs r) ->
+    (isSubProjection L1 L2 = true <-> incl n1 n2).
+  Proof.
+    intros F1 F2 Hin. rewrite isSub_spec. split.
+    - intros H nm Hnm. destruct (col_exists nm (Hin nm Hnm)) as (c & Hc).
+      assert (Hc1 : In c L1) by (apply (F2_in _ _ _ F1); exists nm; split; assumption).
+      apply H, (F2_in _ _ _ F2) in Hc1 as (nm' & H1 & H2). rewrite (col_inj _ _ _ Hc H2). exact H1.
+    - intros H c Hc. apply (F2_in _ _ _ F1) in Hc as (nm & H1 & H2). apply (F2_in _ _ _ F2). exists nm. split; [apply H, H1 | exact H2].
+  Qed.
+
+  Lemma F2_hasCommon n1 L1 n2 L2 : Forall2 (col r) n1 L1 -> Forall2 (col r) n2 L2 ->
+    (hasCommonIndices L1 L2 = true <-> exists nm, In nm n1 /\ In nm n2).
+  Proof.
+    intros F1 F2. rewrite hasCommon_spec. split.
+    - intros (c & H1 & H2). apply (F2_in _ _ _ F1) in H1 as (nm & H1 & Hc1). apply (F2_in _ _ _ F2) in H2 as (nm' & H2 & Hc2).
+      rewrite <- (col_inj _ _ _ Hc1 Hc2) in H2. exists nm. split; assumption.
+    - intros (nm & H1 & H2). destruct (F2_col_of _ _ _ F1 H1) as (c & Hc & Hcol).
+      exists c. split; [exact Hc|]. apply (F2_in _ _ _ F2). exists nm. split; assumption.
+  Qed.
+End Cols.
+
+(* ---------- rows as attribute lookups ---------- *)
+
+Definition ra (r : relation) (v : row) : list (name * val) := combine (r_attrs r) (pick (r_p r) v).
+
+Lemma F2_cells r (v : row) names L : wf_rel r -> Forall2 (col r) names L ->
+  Forall2 (fun nm x => tget nm (ra r v) = Some x) names (pick L v).
+Proof.
+  intros Hwf F. induction F as [|nm c names L H F IH]; [constructor|].
+  cbn [pick map]. constructor; [apply col_tget; assumption | exact IH].
+Qed.
+
+Lemma cells_eq (f g : name -> option val) names : forall L R,
+  Forall2 (fun nm x => f nm = Some x) names L -> Forall2 (fun nm x => g nm = Some x) names R ->
+  (L = R <-> forall nm, In nm names -> f nm = g nm).
+Proof.
+  induction names as [|nm names IH]; intros L R FL FR; inversion FL; inversion FR; subst.
+  - split; [intros _ nm [] | reflexivity].
+  - split.
+    + intros E. injection E as -> E'. intros nm' [<-|Hin]; [congruence|]. eapply IH; eassumption.
+    + intros H. f_equal.
+      * specialize (H nm (or_introl eq_refl)). congruence.
+      * eapply IH; [eassumption | eassumption|]. intros nm' Hin. apply H. right; assumption.
+Qed.
+
+Lemma cells_tget (f : name -> option val) names : forall L,
+  Forall2 (fun nm x => f nm = Some x) names L ->
+  forall nm, tget nm (combine names L) = if name_in nm names then f nm else None.
+Proof.
+  induction names as [|n0 names IH]; intros L F nm; inversion F as [|? x ? L' Hx F']; subst; [reflexivity|].
+  cbn [combine]. rewrite tget_cons. unfold name_in. cbn [existsb]. fold (name_in nm names).
+  destruct (name_eqb nm n0) eqn:E; [apply name_eqb_eq in E; subst; symmetry; exact Hx|].
+  cbn [orb]. apply IH, F'.
+Qed.
+
+(* ---------- NamesSlice ---------- *)
+
+Lemma ns_intersect_in a b nm : In nm (ns_intersect a b) <-> In nm a /\ In nm b.
+Proof.
+  unfold ns_intersect. destruct (length b <? length a); rewrite filter_In, name_in_iff; intuition.
+Qed.
+
+Lemma ns_minus_in a b nm : In nm (ns_minus a b) <-> In nm a /\ ~ In nm b.
+Proof. unfold ns_minus. rewrite filter_In, negb_true_iff, name_in_false. reflexivity. Qed.
+
+Lemma ns_isSubset_spec a b : ns_isSubset a b = true <-> incl a b.
+Proof.
+  unfold ns_isSubset. rewrite forallb_forall. split; intros H nm Hnm; [apply name_in_iff, H, Hnm | apply name_in_iff, H, Hnm].
+Qed.
+
+Lemma ns_hasIntersect_false a b : (forall nm, In nm a -> In nm b -> False) -> ns_hasIntersect a b = false.
+Proof.
+  intros H. unfold ns_hasIntersect.
+  destruct (length b <? length a).
+  - destruct (existsb (fun x => name_in x b) a) eqn:E; [|reflexivity].
+    apply existsb_exists in E as (nm & H1 & H2). apply name_in_iff in H2. exfalso; eauto.
+  - destruct (existsb (fun x => name_in x a) b) eqn:E; [|reflexivity].
+    apply existsb_exists in E as (nm & H1 & H2). apply name_in_iff in H2. exfalso; eauto.
+Qed.
+
+Lemma ns_intersect_nodup a b : NoDup a -> NoDup b -> NoDup (ns_intersect a b).
+Proof. intros Ha Hb. unfold ns_intersect. destruct (length b <? length a); apply NoDup_filter; assumption. Qed.
+
+(* what the engine needs of the (common, left output, right output) names it is given *)
+Record good_partition (A B common lo ro : list name) : Prop := {
+  gp_lo : incl lo A;
+  gp_ro : incl ro B;
+  gp_lo_nd : NoDup lo;
+  gp_ro_nd : NoDup ro;
+  gp_disj : forall nm, In nm lo -> In nm ro -> False;
+  gp_partial_l : forall nm, In nm lo -> In nm common -> incl common lo;
+  gp_partial_r : forall nm, In nm ro -> In nm common -> incl common ro;
+  gp_shape : lo = [] \/ ro = [] \/ (~ incl lo common /\ ~ incl ro common)
+}.
+
+Lemma partition_good op A B : NoDup A -> NoDup B ->
+  let common := ns_intersect A B in
+  good_partition A B common (fst (partitionNames op A B common)) (snd (partitionNames op A B common)).
+Proof.
+  intros HA HB common.
+  assert (Hc : forall nm, In nm common <-> In nm A /\ In nm B) by (intros nm; apply ns_intersect_in).
+  assert (HcA : incl common A) by (intros nm H; apply Hc in H; tauto).
+  assert (HcB : incl common B) by (intros nm H; apply Hc in H; tauto).
+  assert (Hcnd : NoDup common) by (apply ns_intersect_nodup; assumption).
+  assert (Hm : forall X Y, NoDup X -> NoDup (ns_minus X Y)) by (intros X Y H; apply NoDup_filter, H).
+  assert (HmA : forall X Y, incl (ns_minus X Y) X) by (intros X Y nm H; apply ns_minus_in in H; tauto).
+  assert (Hnil : forall X : list name, incl [] X) by (intros X nm []).
+  destruct op; cbn [partitionNames].
+  - (* <&> *)
+    destruct (ns_isSubset A B) eqn:E1; [|destruct (ns_isSubset B A) eqn:E2]; cbn [fst snd].
+    + constructor; try solve [assumption | apply incl_refl | apply Hnil | constructor | intros nm [] | intros nm _ []].
+      * intros nm _ _; exact HcB.
+      * left; reflexivity.
+    + constructor; try solve [assumption | apply incl_refl | apply Hnil | constructor | intros nm [] | intros nm _ []].
+      * intros nm _ _; exact HcA.
+      * right; left; reflexivity.
+    + constructor; try solve [assumption | apply incl_refl | apply HmA | apply Hm, HB].
+      * intros nm H1 H2. apply ns_minus_in in H2. tauto.
+      * intros nm _ _. exact HcA.
+      * intros nm H1 H2. apply ns_minus_in in H1. apply Hc in H2. tauto.
+      * right; right. split.
+        -- intros H. assert (X : ns_isSubset A B = true) by (apply ns_isSubset_spec; intros nm Hnm; apply HcB, H, Hnm). congruence.
+        -- intros H. apply forallb_false in E2 as (nm & H1 & H2). apply name_in_false in H2.
+           assert (H3 : In nm (ns_minus B A)) by (apply ns_minus_in; split; assumption).
+           apply H, Hc in H3. tauto.
+  - (* <-> *)
+    cbn [fst snd]. constructor; try solve [apply HmA | apply Hm; assumption].
+    + intros nm H1 H2. apply ns_minus_in in H1, H2. apply (proj2 H1), Hc. tauto.
+    + intros nm H1 H2. apply ns_minus_in in H1. tauto.
+    + intros nm H1 H2. apply ns_minus_in in H1. tauto.
+    + destruct (ns_minus A common) as [|x lo'] eqn:El; [left; reflexivity|].
+      destruct (ns_minus B common) as [|y ro'] eqn:Er; [right; left; reflexivity|].
+      right; right. split; intros H.
+      * assert (H1 : In x (ns_minus A common)) by (rewrite El; left; reflexivity). apply ns_minus_in in H1.
+        apply (proj2 H1), H. left; reflexivity.
+      * assert (H1 : In y (ns_minus B common)) by (rewrite Er; left; reflexivity). apply ns_minus_in in H1.
+        apply (proj2 H1), H. left; reflexivity.
+  - (* -&- *)
+    cbn [fst snd]. constructor; try solve [assumption | apply incl_refl | apply Hnil | constructor | intros nm [] | intros nm _ []].
+    + intros nm _ _. apply incl_refl.
+    + right; left; reflexivity.
+  - (* --- *)
+    cbn [fst snd]. constructor; try solve [apply Hnil | constructor | intros nm [] | intros nm _ []]. left; reflexivity.
+  - (* -&> *)
+    cbn [fst snd]. constructor; try solve [assumption | apply incl_refl | apply Hnil | constructor | intros nm [] | intros nm _ []].
+    + intros nm _ _; exact HcB.
+    + left; reflexivity.
+  - (* <&- *)
+    cbn [fst snd]. constructor; try solve [assumption | apply incl_refl | apply Hnil | constructor | intros nm [] | intros nm _ []].
+    + intros nm _ _; exact HcA.
+    + right; left; reflexivity.
+  - (* --> *)
+    cbn [fst snd]. constructor; try solve [assumption | apply HmA | apply Hm; assumption | apply Hnil | constructor | intros nm [] | intros nm _ []].
+    + intros nm H1 H2. apply ns_minus_in in H1. tauto.
+    + left; reflexivity.
+  - (* <-- *)
+    cbn [fst snd]. constructor; try solve [assumption | apply HmA | apply Hm; assumption | apply Hnil | constructor | intros nm [] | intros nm _ []].
+    + intros nm H1 H2. apply ns_minus_in in H1. tauto.
+    + right; left; reflexivity.
+Qed.
+
+(* ---------- the combination of two agreeing rows ---------- *)
+
+Lemma combine_app' {X Y} (a : list X) : forall (b : list Y) c d, length a = length b ->
+  combine (a ++ c) (b ++ d) = combine a b ++ combine c d.
+Proof.
+  induction a as [|x a IH]; intros [|y b] c d H; try discriminate; [reflexivity|].
+  cbn [app combine]. f_equal. apply IH. simpl in H. lia.
+Qed.
+
+Lemma F2_length {X Y} (R : X -> Y -> Prop) l m : Forall2 R l m -> length l = length m.
+Proof. induction 1; simpl; congruence. Qed.
+
+Lemma tget_build_tuple n (t u : list (name * val)) : asorted t -> asorted u ->
+  match build_tuple (t ++ u) with VTup l => tget n l | _ => None end
+  = match tget n u with Some v => Some v | None => tget n t end.
+Proof.
+  intros Ht Hu. unfold build_tuple. rewrite tget_fold_ainsert, rev_app_distr, tget_app.
+  rewrite (tget_rev n u (asorted_nodup u Hu)), (tget_rev n t (asorted_nodup t Ht)).
+  destruct (tget n u); [reflexivity|]. destruct (tget n t); reflexivity.
+Qed.
+
+Lemma build_tuple_sorted l : exists m, build_tuple l = VTup m /\ asorted m.
+Proof. unfold build_tuple. eexists. split; [reflexivity | apply fold_ainsert_sorted; exact I]. Qed.
+
+Lemma name_in_nil nm : name_in nm [] = false.
+Proof. reflexivity. Qed.
+
+Ltac close_case fA fB nm :=
+  repeat match goal with
+         | H : true = false -> _ |- _ => clear H
+         | H : false = true -> _ |- _ => clear H
+         | H : true = true -> false = true -> _ |- _ => clear H
+         | H : ?x = ?x -> _ |- _ => specialize (H eq_refl)
+         end;
+  repeat match goal with
+         | H : fA nm = None |- _ => rewrite H in *; clear H
+         | H : fB nm = None |- _ => rewrite H in *; clear H
+         | H : fA nm = fB nm |- _ => rewrite <- H in *; clear H
+         end;
+  destruct (fA nm); destruct (fB nm); try reflexivity; try congruence.
+
+Section Combine.
+  Variables (op : joinop) (A B : list name) (fA fB : name -> option val) (tA uB : list (name * val)) (common' : list name).
+  Let common := ns_intersect A B.
+  Let lo := fst (partitionNames op A B common).
+  Let ro := snd (partitionNames op A B common).
+  Hypothesis HtA : asorted tA.
+  Hypothesis HuB : asorted uB.
+  Hypothesis HfA : forall nm, tget nm tA = fA nm.
+  Hypothesis HfB : forall nm, tget nm uB = fB nm.
+  Hypothesis HAn : forall nm, name_in nm A = false -> fA nm = None.
+  Hypothesis HBn : forall nm, name_in nm B = false -> fB nm = None.
+  Hypothesis HAs : forall nm, name_in nm A = true -> fA nm <> None.
+  Hypothesis HBs : forall nm, name_in nm B = true -> fB nm <> None.
+  Hypothesis Hag : forall nm, name_in nm A = true -> name_in nm B = true -> fA nm = fB nm.
+  Hypothesis Hc' : forall nm, name_in nm common' = name_in nm A && name_in nm B.
+
+  Lemma name_in_common nm : name_in nm common = name_in nm A && name_in nm B.
+  Proof.
+    unfold common, ns_intersect. destruct (length B <? length A); rewrite name_in_filter; [reflexivity | apply andb_comm].
+  Qed.
+
+  Lemma name_in_minus X Y nm : name_in nm (ns_minus X Y) = name_in nm X && negb (name_in nm Y).
+  Proof. unfold ns_minus. apply name_in_filter. Qed.
+
+  Lemma jcombine_tuple L R :
+    Forall2 (fun nm x => fA nm = Some x) lo L -> Forall2 (fun nm x => fB nm = Some x) ro R ->
+    mktup (combine (lo ++ ro) (L ++ R)) = jcombine op common' tA uB.
+  Proof.
+    intros FL FR.
+    assert (LHS : forall nm, tget nm (asort (combine (lo ++ ro) (L ++ R)))
+                  = match (if name_in nm lo then fA nm else None) with
+                    | Some v => Some v
+                    | None => if name_in nm ro then fB nm else None
+                    end).
+    { intros nm. rewrite tget_asort, combine_app' by (apply (F2_length _ _ _ FL)).
+      rewrite tget_app, (cells_tget fA lo L FL), (cells_tget fB ro R FR). reflexivity. }
+    assert (Hsub : forall X Y nm, ns_isSubset X Y = true -> name_in nm X = true -> name_in nm Y = true).
+    { intros X Y nm H1 H2. apply name_in_iff. apply (proj1 (ns_isSubset_spec X Y) H1). apply name_in_iff, H2. }
+    assert (Fin : forall nm (P : Prop),
+              (forall a b, name_in nm A = a -> name_in nm B = b ->
+                 (a = false -> fA nm = None) -> (b = false -> fB nm = None) ->
+                 (a = true -> fA nm <> None) -> (b = true -> fB nm <> None) ->
+                 (a = true -> b = true -> fA nm = fB nm) -> P) -> P).
+    { intros nm P H. apply (H (name_in nm A) (name_in nm B)); auto. }
+    unfold mktup. subst lo ro. destruct op; cbn [partitionNames jcombine] in *.
+    - (* <&> *)
+      destruct (build_tuple_sorted (tA ++ uB)) as (m & Em & Hm).
+      pose proof (fun n => tget_build_tuple n tA uB HtA HuB) as Hb. rewrite Em in *. f_equal.
+      apply asorted_ext; [apply asort_sorted | exact Hm|]. intros nm. rewrite LHS, Hb, HfA, HfB.
+      apply (Fin nm). intros a b Ea Eb Ha0 Hb0 Ha1 Hb1 Hab.
+      destruct (ns_isSubset A B) eqn:E1; [|destruct (ns_isSubset B A) eqn:E2]; cbn [fst snd]; rewrite ?name_in_nil.
+      + rewrite Eb. pose proof (Hsub A B nm E1) as S. rewrite Ea, Eb in S.
+        destruct a, b; try (specialize (S eq_refl); discriminate); close_case fA fB nm.
+      + rewrite Ea. pose proof (Hsub B A nm E2) as S. rewrite Ea, Eb in S.
+        destruct a, b; try (specialize (S eq_refl); discriminate); close_case fA fB nm.
+      + rewrite name_in_minus, Ea, Eb. destruct a, b; cbn [andb negb]; close_case fA fB nm.
+    - (* <-> *)
+      set (notc := fun n => negb (name_in n common')).
+      destruct (build_tuple_sorted (tproject notc tA ++ tproject notc uB)) as (m & Em & Hm).
+      pose proof (fun n => tget_build_tuple n (tproject notc tA) (tproject notc uB)
+                             (filter_asorted' _ _ HtA) (filter_asorted' _ _ HuB)) as Hb.
+      rewrite Em in *. f_equal.
+      apply asorted_ext; [apply asort_sorted | exact Hm|]. intros nm. rewrite LHS, Hb.
+      unfold tproject. rewrite !(tget_filter nm notc), HfA, HfB. unfold notc. rewrite Hc'.
+      cbn [fst snd]. rewrite !name_in_minus, name_in_common.
+      apply (Fin nm). intros a b Ea Eb Ha0 Hb0 Ha1 Hb1 Hab. rewrite Ea, Eb.
+      destruct a, b; cbn [andb negb]; close_case fA fB nm.
+    - (* -&- *)
+      f_equal. apply asorted_ext; [apply asort_sorted | apply filter_asorted', HtA|]. intros nm. rewrite LHS.
+      unfold tproject. rewrite (tget_filter nm (fun n => name_in n common')), HfA, Hc'.
+      cbn [fst snd]; rewrite ?name_in_nil. rewrite name_in_common.
+      apply (Fin nm). intros a b Ea Eb Ha0 Hb0 Ha1 Hb1 Hab. rewrite Ea, Eb.
+      destruct a, b; cbn [andb]; close_case fA fB nm.
+    - (* --- *)
+      inversion FL; inversion FR; subst. reflexivity.
+    - (* -&> *)
+      f_equal. apply asorted_ext; [apply asort_sorted | exact HuB|]. intros nm. rewrite LHS, HfB.
+      cbn [fst snd]; rewrite ?name_in_nil.
+      apply (Fin nm). intros a b Ea Eb Ha0 Hb0 Ha1 Hb1 Hab. rewrite Eb.
+      destruct a, b; close_case fA fB nm.
+    - (* <&- *)
+      f_equal. apply asorted_ext; [apply asort_sorted | exact HtA|]. intros nm. rewrite LHS, HfA.
+      cbn [fst snd]; rewrite ?name_in_nil.
+      apply (Fin nm). intros a b Ea Eb Ha0 Hb0 Ha1 Hb1 Hab. rewrite Ea.
+      destruct a, b; close_case fA fB nm.
+    - (* --> *)
+      f_equal. apply asorted_ext; [apply asort_sorted | apply filter_asorted', HuB|]. intros nm. rewrite LHS.
+      unfold tproject. rewrite (tget_filter nm (fun n => negb (name_in n common'))), HfB, Hc'.
+      cbn [fst snd]; rewrite ?name_in_nil. rewrite name_in_minus, name_in_common.
+      apply (Fin nm). intros a b Ea Eb Ha0 Hb0 Ha1 Hb1 Hab. rewrite Ea, Eb.
+      destruct a, b; cbn [andb negb]; close_case fA fB nm.
+    - (* <-- *)
+      f_equal. apply asorted_ext; [apply asort_sorted | apply filter_asorted', HtA|]. intros nm. rewrite LHS.
+      unfold tproject. rewrite (tget_filter nm (fun n => negb (name_in n common'))), HfA, Hc'.
+      cbn [fst snd]; rewrite ?name_in_nil. rewrite name_in_minus, name_in_common.
+      apply (Fin nm). intros a b Ea Eb Ha0 Hb0 Ha1 Hb1 Hab. rewrite Ea, Eb.
+      destruct a, b; cbn [andb negb]; close_case fA fB nm.
+  Qed.
+End Combine.
